@@ -55,6 +55,14 @@ def gen(rng):
             if rng.random() < 0.6:
                 steps.append(['d', t_, 0o700])
                 steps.append(['d', t_ + '/' + rng.choice(['info', 'info', 'files']), 0o700])
+    tdmount = None
+    if rng.random() < 0.06:
+        # a trash directory that is itself a mount point (a tmpfs or a dedicated disk mounted on ~/.local/share/Trash, on
+        # $topdir/.Trash-$uid): it is on ANOTHER volume than the files around it
+        cands_ = [G.home_trash_of(env)] + [v_ + '/.Trash-%d' % uid for v_ in L['vols'] if L['trash'][v_]['alt'] in ('absent', 'dir')]
+        tdmount = rng.choice(cands_)
+        steps.append(['d', tdmount, 0o700])
+        L['mounts'].append(tdmount)
     place = rng.choice(['home', 'home', 'vol', 'vol', 'nested', 'via_link', 'link_parent', 'root_tmp', 'link_arg_slash'])
     if place in ('vol', 'via_link', 'link_arg_slash') and not L['vols']:
         place = 'home'
